@@ -6,7 +6,7 @@ V = os.path.dirname(os.path.dirname(os.path.abspath(__file__)))
 sys.path.insert(0, V)
 from sa.inline import qualnames
 src = sys.argv[1] if len(sys.argv) > 1 else "/repo/src/xstate_statemachine"
-funcs, params = [], {}
+funcs, params, consts = [], {}, {}
 for root, dirs, files in os.walk(src):
     dirs[:] = [d for d in dirs if d != "__pycache__"]
     for fn in sorted(files):
@@ -16,6 +16,8 @@ for root, dirs, files in os.walk(src):
         if rel.endswith("__init__"):
             rel = rel[:-len("__init__")].rstrip(".")
         tree = ast.parse(open(os.path.join(root, fn), encoding="utf8").read())
+        consts[rel] = sorted({t.id for st in tree.body if isinstance(st, (ast.Assign, ast.AnnAssign))
+                              for t in (st.targets if isinstance(st, ast.Assign) else [st.target]) if isinstance(t, ast.Name)})
         for qn, node, chain in qualnames(tree, rel):
             funcs.append(qn)
             a = node.args
@@ -23,7 +25,8 @@ for root, dirs, files in os.walk(src):
 out = {"comment": "qualified names (and parameter names) of every function of the reference tree (/repo at the time the rules were written); a private "
                   "function that is not listed is treated as an extracted helper and inlined into its callers before analysis (sa/inline.py); a new "
                   "function that takes the place of a listed one that is gone (same scope, same parameters) is a rename and is left alone",
-       "functions": sorted(set(funcs)), "params": {k: params[k] for k in sorted(params)}}
+       "functions": sorted(set(funcs)), "params": {k: params[k] for k in sorted(params)},
+       "module_names": {k: consts[k] for k in sorted(consts)}}
 with open(os.path.join(V, "rules", "known_functions.json"), "w") as fh:
     json.dump(out, fh, indent=0)
 print(len(out["functions"]), "functions")
